@@ -464,5 +464,6 @@ def intrinsics(reg: Registry):
         "interp.derivative_at": krogh_derivative, "numpy.polyder": polyder, "numpy.polyval": polyval,
         "numpy.poly1d": poly1d, "numpy.vander": vander, "numpy.linalg.lstsq": lstsq, "numpy.polyfit": polyfit, "numpy.finfo": finfo, "builtins.max": max_,
         "lstsqres.sum": lambda ev, a, k: sp.Symbol("LSTSQ_MISFIT", nonnegative=True), "lstsqres.size": lambda ev, a, k: a[0].sym_len(),
+        "numpy.union1d": lambda ev, a, k: sp.Function("UNION1D")(as_sym(a[0]), as_sym(a[1])),      # a sorted index vector decided by the data counts: one atom, the same for every vector it selects from
         "numpy.flip": flip, "numpy.sort": sort_, "numpy.argsort": argsort_, "numpy.ceil": ceil, "numpy.floor": floor, "math.ceil": ceil, "math.floor": floor, "builtins.int": int_,
     }
